@@ -17,7 +17,7 @@ RULE = ("grammar-directed files per format (BED3/6/12, bedGraph, narrowPeak, chr
         "LF/CRLF, header/comment lines; exhaustive width vectors {1,2,3,9}^(rows x 3 cols) for BED3 and chrom.sizes. "
         "Non-trivial = >= 2 rows with unequal widths in some column, or a sign / '.' / CRLF / comment line present")
 EXHAUSTIVE = {"quick": False, "thorough": False}
-MODEL_OPS = {"parse"}          # "parse_x": same observation, implementation vs reference parser only (typed INFO, genotypes)
+MODEL_OPS = {"parse", "parse_x"}   # "parse_x" (corpus): VCF flavours with typed INFO / genotype columns, same handling
 PARALLEL = 16
 ASSUMPTIONS = [
     "NumPy flatnonzero/reshape/fancy indexing and npstructures RaggedView slicing have their list-level meaning (modelled as positions/slices)",
@@ -208,7 +208,7 @@ def regenerate():
 # ------------------------------------------------------------------ generators
 IDCH = "ABCXYZabcxyz0123456789_.-"
 TXCH = IDCH + " ;=:\"/|*,+"
-WIDTHS = [1, 1, 1, 2, 2, 3, 3, 5, 9, 18]
+WIDTHS = [1, 1, 1, 2, 2, 3, 3, 5, 9, 18, 19]
 
 
 def g_ident(rng, w=None):
@@ -227,6 +227,8 @@ def g_uint(rng, w=None, lead0=True):
     w = w or rng.choice(WIDTHS)
     if w == 1:
         return rng.choice("0123456789")
+    if w >= 19:                          # the largest values an int64 column can hold
+        return str(rng.choice([2 ** 63 - 1, 10 ** 18, 10 ** 18 + 1, rng.randrange(10 ** 18, 2 ** 63)]))
     if lead0 and rng.random() < 0.05:
         return "".join(rng.choice("0123456789") for _ in range(w))
     if rng.random() < 0.25:   # powers of ten and their neighbours
@@ -288,6 +290,22 @@ def g_cell(rng, kind, mode):
     raise KeyError(kind)
 
 
+def g_gtf_attr(rng):
+    keys = ["gene_id", "transcript_id", "exon_number", "gene_name", "tag"]
+    items = [f'{k} "{g_ident(rng, rng.choice([1, 2, 5, 9]))}";' for k in rng.sample(keys, rng.choice([1, 2, 3, 5]))]
+    return " ".join(items)
+
+
+def g_gff3_attr(rng):
+    keys = ["ID", "Name", "Parent", "Dbxref", "Note", "Alias"]
+    def val():
+        v = g_ident(rng, rng.choice([1, 2, 5, 9]))
+        if rng.random() < 0.2:
+            v += rng.choice(["%3B", "%2C", "%3D", "%09", ",x", ":y"])
+        return v
+    return ";".join(f"{k}={val()}" for k in rng.sample(keys, rng.choice([1, 2, 3, 6])))
+
+
 def g_rows(rng, big):
     return rng.choice([1, 1, 2, 2, 3, 3, 4, 6] + ([10, 25] if big else []))
 
@@ -308,12 +326,27 @@ def g_delimited(rng, fmt, big):
             "signs": rng.random() < 0.6}
     n = g_rows(rng, big)
     rows = [[g_cell(rng, k, mode) for _, k in F["cols"]] for _ in range(n)]
+    if fmt in ("gtf", "gff") and rng.random() < 0.7:     # real-looking feature lines
+        for r in rows:
+            r[2] = rng.choice(["gene", "transcript", "exon", "CDS", "mRNA", "five_prime_UTR"])
+            r[5] = rng.choice([".", g_float(rng), g_uint(rng, 2)])
+            r[7] = rng.choice([".", "0", "1", "2"])
+            r[8] = g_gtf_attr(rng) if fmt == "gtf" else g_gff3_attr(rng)
+    if fmt == "pairs" and rng.random() < 0.5:
+        head_pairs = ["## pairs format v1.0", "#sorted: chr1-chr2-pos1-pos2", "#chromsize: chr1 1000",
+                      "#columns: readID chr1 pos1 chr2 pos2 strand1 strand2"]
+    else:
+        head_pairs = []
     lines = ["\t".join(r) for r in rows]
-    head = g_comments(rng, F["comment"], rng.choice([0, 0, 1, 2]))
+    head = head_pairs or g_comments(rng, F["comment"], rng.choice([0, 0, 1, 2]))
+    if fmt == "gff" and rng.random() < 0.5:
+        head = ["##gff-version 3", "##sequence-region chr1 1 " + g_uint(rng, 5)] + head
     if F.get("interior"):
         out = []
         for l in lines:
             out.append(l)
+            if fmt == "gff" and rng.random() < 0.1:
+                out.append("###")
             if rng.random() < 0.35:
                 out += g_comments(rng, F["comment"], rng.choice([1, 1, 2]), tabs=True)
         lines = out
@@ -346,7 +379,7 @@ INFO_DEFS = [("DP", "1", "Integer"), ("AF", "A", "Float"), ("DB", "0", "Flag"), 
 
 def g_vcf(rng, big, flavour):
     n = g_rows(rng, big)
-    with_info_hdr = flavour != "VCFWithInfoAsStringBuffer" and rng.random() < 0.7
+    with_info_hdr = rng.random() < 0.7
     if flavour in ("VCFMatrixBuffer", "PhasedVCFMatrixBuffer", "PhasedHaplotypeVCFMatrixBuffer"):
         ns = rng.choice([1, 2, 3, 4])
     elif flavour == "VCFBuffer2":
@@ -433,8 +466,6 @@ def _case(fmt, lines, crlf, via="open", flavour=None):
     c = {"op": "parse", "fmt": fmt, "text": "".join(l + eol for l in lines), "via": via}
     if flavour:
         c["flavour"] = flavour
-        if flavour not in ("VCFBuffer", "VCFWithInfoAsStringBuffer") or any(l.startswith("##INFO") for l in lines):
-            c["op"] = "parse_x"
     return c
 
 
@@ -852,7 +883,24 @@ def agree_model(c, got, m):
 MODEL_FMTS = {"bed3", "bed6", "bed12", "bdg", "narrowpeak", "sizes", "gtf", "gff", "wig", "pairs", "sam", "gfa", "fasta", "fasta2", "fastq"}
 
 
+def _info_kind(num, typ):
+    """header declaration -> column kind (written from the VCF spec: Number 0/1 scalar, everything else a list)"""
+    is_list = num not in ("0", "1")
+    if typ == "Flag":
+        return "flag"
+    if typ == "Integer":
+        return "ilist" if is_list else "oint"
+    if typ == "Float":
+        return "flist" if is_list else "ofloat"
+    return "str"
+
+
 def model_request(c):
+    if c["fmt"] == "vcf":
+        fl = c.get("flavour") or "VCFBuffer"
+        head = [l.rstrip("\r") for l in c["text"].split("\n") if l.startswith("##INFO")]
+        defs = _ref_info_types(head) if fl != "VCFWithInfoAsStringBuffer" else []
+        return dict(c, op="parse", flavour=fl, info_defs=[[k, _info_kind(num, typ)] for k, num, typ in defs])
     return c
 
 
@@ -884,6 +932,8 @@ def finding_key(c, got, exp):
         vals = [r[j] for r in body if len(r) > j]
         if "." in vals and any(v != "." for v in vals):
             return "optional-int:dot-mixed-with-values"
+    if c.get("flavour") == "VCFWithInfoAsStringBuffer" and "##INFO" in t:
+        return "vcf:info-as-string-buffer-with-info-header"
     if fmt == "vcf" and re.search(r"=\.[;\t,]|,\.[;\t,]", t):
         return "optional-int:dot-mixed-with-values"
     if F.get("interior") and any(l.startswith(F["comment"]) and "\t" in l for l in t.split("\n")):
